@@ -181,6 +181,12 @@ class Registry:
         if ts == "list[arr1]":
             from .arrays import TArrList
             return TArrList()
+        if ts == "arrseq":
+            from .arrays import TArrSeq
+            return TArrSeq()
+        if ts == "termdict":
+            from .refs import TTermDict
+            return TTermDict(self)
         if ts == "series":
             from .pandas_m import TSeries
             return TSeries()
